@@ -1,5 +1,6 @@
 pub mod engines;
 pub mod gen;
+pub mod prims;
 pub mod props;
 pub mod refmodel;
 pub mod runner;
